@@ -186,6 +186,8 @@ pub fn hazard_scenario(h: &Hazard) -> Scenario {
         replicas: vec![Ctor::PlanShared],
         receivers: vec![RxSpec { kind: RxKind::Block, threshold: None, mirror: None }],
         kernel: Kernel::Auto,
+        warm: vec![],
+        fresh_check: false,
     };
     let mut events = vec![];
     if h.esi >= h.k {
